@@ -19,12 +19,12 @@ case $pkg in
   bandersnatch) dir=bandersnatch ;;
   common) dir=common ;;
   parallel) dir=common/parallel ;;
-  *) echo "UNKNOWN-PACKAGE $pkg"; exit 3 ;;
+  *) dir=zz_demo_$pkg; mkdir -p "$dir" ;;   # a demonstration that needs its own package / test process
 esac
 cp "$demo" "$dir/zz_demo_test.go"
 tests=$(grep -o '^func Test[A-Za-z0-9_]*' "$dir/zz_demo_test.go" | sed 's/func //' | paste -sd'|')
 if go test -vet=off -count=1 -run "^($tests)\$" "./$dir" >"$W.log" 2>&1; then echo "DEMO-PASSES-WITHOUT-CHANGE"; else echo "DEMO-FAILS-WITHOUT-CHANGE(!)"; tail -5 "$W.log"; fi
 git apply "$D/patch.diff" || { echo "PATCH-DOES-NOT-APPLY"; exit 1; }
 if go test -vet=off -count=1 -run "^($tests)\$" "./$dir" >"$W.log" 2>&1; then echo "DEMO-PASSES-WITH-CHANGE(!)"; else echo "DEMO-FAILS-WITH-CHANGE"; fi
-rm "$dir/zz_demo_test.go"
+rm "$dir/zz_demo_test.go"; case $dir in zz_demo_*) rmdir "$dir";; esac
 if go test -vet=off -count=1 -timeout 25m ./... >"$W.log" 2>&1; then echo "SUITE-PASSES-WITH-CHANGE"; else echo "SUITE-FAILS-WITH-CHANGE(!)"; grep -E "^(--- FAIL|FAIL)" "$W.log" | head; fi
